@@ -310,6 +310,7 @@ class EditStream(HTMLHandlerBase):
         }
         return jsonify(result)
 
+    @login_required(permission=models.Group.MEDIA)
     @csrf_token_required('streams')
     def post(self, mps_name: str) -> flask.Response:
         data = flask.request.json
@@ -326,6 +327,7 @@ class EditStream(HTMLHandlerBase):
             })
         return self.process_json_body(mps_name, csrf_token)
 
+    @login_required(permission=models.Group.MEDIA)
     @csrf_token_required('streams')
     def delete(self, mps_name: str) -> flask.Response:
         logging.info('Deleting MultiPeriodStream: %s', mps_name)
